@@ -143,6 +143,16 @@ fn deep_positions(bits: u32) -> Vec<u64> {
 pub fn check_bits(x: u64, near: u64) -> Vec<Viol> {
     let id = near;
     let mut out = Vec::new();
+    // the valid neighbourhood of the pattern is used first (its siblings are produced, it is decoded and
+    // expanded): whatever those calls remember must not make the pattern itself acceptable
+    if rc::is_canonical(near) {
+        if let Some(p) = rc::parent(near) {
+            let _ = subj::children(p, None);
+        }
+        let _ = subj::deserialize(near);
+        let _ = subj::children(near, None);
+        let _ = subj::uncompact(&[near], (rc::resolution(near).unwrap_or(0) + 1).min(29));
+    }
     if !rc::is_canonical(x) {
         // "every ID returned by any API call is in this canonical form": hierarchy calls on a
         // bit pattern that is not a cell, with every natural target (the resolution the
